@@ -571,6 +571,10 @@ func (s *Lexer) getNextToken() (*Token, error) {
 		token.TokenType = ERROR
 	case SSTRING_SINGLE:
 		fallthrough
+	case SSTRING_S_ESCAPE:
+		fallthrough
+	case SSTRING_D_ESCAPE:
+		fallthrough
 	case SSTRING_DOUBLE:
 		unendingString = true
 		token.TokenType = ERROR
@@ -709,6 +713,8 @@ func (s *Lexer) getNextToken() (*Token, error) {
 		token.TokenType = NEQUAL
 	case SCOLON:
 		token.TokenType = ERROR
+	case SEXCL:
+		token.TokenType = ERROR
 	case SBLOCKCOMMENT:
 		fallthrough
 	case SBLOCKCOMMENTSTARTEND:
@@ -717,6 +723,8 @@ func (s *Lexer) getNextToken() (*Token, error) {
 		unendingBlockComment = true
 		token.TokenType = ERROR
 	case SBLOCKCOMMENTFINAL:
+		fallthrough
+	case SCOMMENTSTART:
 		fallthrough
 	case SCOMMENT:
 		token.TokenType = COMMENT
